@@ -43,9 +43,19 @@ pub mod trusted {
     pub broadcast proof fn axiom_vec_default_is_empty<T>()
         ensures (#[trigger] default_value::<Vec<T>>())@ == Seq::<T>::empty()
     { admit(); }
+    // ASSUMED: an array, consumed as an iterator, yields its elements in order
+    pub broadcast proof fn axiom_array_into_iter<T, const N: usize>(a: [T; N])
+        ensures #[trigger] vstd::std_specs::iter::into_iter_remaining::<T, [T; N]>(a) == a@
+    { admit(); }
+    // ASSUMED: HashSet::from_iter collects exactly the yielded elements
+    pub broadcast proof fn axiom_hashset_from_iter<T: Eq + Hash, S: std::hash::BuildHasher + Default>(q: Seq<T>, r: HashSet<T, S>)
+        requires #[trigger] <HashSet<T, S> as vstd::std_specs::iter::FromIteratorSpec<T>>::from_iter_ensures(q, r)
+        ensures r@ == q.to_set()
+    { admit(); }
 }
 use trusted::default_value;
-broadcast use {trusted::axiom_fx_builds_valid_hashers, trusted::axiom_hashset_default_is_empty, trusted::axiom_vec_default_is_empty};
+broadcast use {trusted::axiom_fx_builds_valid_hashers, trusted::axiom_hashset_default_is_empty, trusted::axiom_vec_default_is_empty,
+               trusted::axiom_array_into_iter, trusted::axiom_hashset_from_iter};
 
 // ASSUMED contract of Entry::or_default (mirrors vstd's Entry::or_insert with the default value)
 pub assume_specification<'a, K, V: Default> [std::collections::hash_map::Entry::<'a, K, V>::or_default] (e: std::collections::hash_map::Entry<'a, K, V>) -> (r: &'a mut V)
@@ -58,6 +68,63 @@ pub assume_specification<T, F: FnOnce(T) -> bool> [Option::<T>::is_some_and] (o:
     requires o is Some ==> f.requires((o->0,)),
     ensures match o { None => !r, Some(v) => f.ensures((v,), r) },
 ;
+
+// ---- hashbrown's raw entry API (`map.raw_entry_mut().from_key(k)` -> Occupied / Vacant), modelled over std's HashMap (TRUSTED).
+// from_key and RawVacantEntryMut::insert are verified against vstd's std contracts; RawOccupiedEntryMut::get_mut is ASSUMED
+// (std's HashMap::get_mut has no vstd specification): it lends the value stored under the key and writes it back.
+pub mod hashbrown { pub mod hash_map {
+    use super::super::*;
+    #[verifier::reject_recursive_types(K)]
+    #[verifier::reject_recursive_types(S)]
+    pub struct RawEntryBuilderMut<'a, K, V, S> { pub map: &'a mut std::collections::HashMap<K, V, S> }
+    #[verifier::reject_recursive_types(K)]
+    #[verifier::reject_recursive_types(S)]
+    pub struct RawOccupiedEntryMut<'a, K, V, S> { pub map: &'a mut std::collections::HashMap<K, V, S>, pub key: Ghost<K> }
+    #[verifier::reject_recursive_types(K)]
+    #[verifier::reject_recursive_types(S)]
+    pub struct RawVacantEntryMut<'a, K, V, S> { pub map: &'a mut std::collections::HashMap<K, V, S> }
+    #[verifier::reject_recursive_types(K)]
+    #[verifier::reject_recursive_types(S)]
+    pub enum RawEntryMut<'a, K, V, S> { Occupied(RawOccupiedEntryMut<'a, K, V, S>), Vacant(RawVacantEntryMut<'a, K, V, S>) }
+    impl<'a, K: Eq + Hash, V, S: std::hash::BuildHasher> RawEntryBuilderMut<'a, K, V, S> {
+        pub fn from_key(self, k: &K) -> (r: RawEntryMut<'a, K, V, S>)
+            requires obeys_key_model::<K>(), builds_valid_hashers::<S>(),
+            ensures match r {
+                RawEntryMut::Occupied(o) => old(self.map)@.contains_key(*k) && o.key@ == *k && *o.map == *old(self.map) && *final(o.map) == *final(self.map),
+                RawEntryMut::Vacant(o) => !old(self.map)@.contains_key(*k) && *o.map == *old(self.map) && *final(o.map) == *final(self.map),
+            }
+        {
+            if self.map.contains_key(k) { RawEntryMut::Occupied(RawOccupiedEntryMut { map: self.map, key: Ghost(*k) }) } else { RawEntryMut::Vacant(RawVacantEntryMut { map: self.map }) }
+        }
+    }
+    impl<'a, K: Eq + Hash, V, S: std::hash::BuildHasher> RawOccupiedEntryMut<'a, K, V, S> {
+        #[verifier::external_body]
+        pub fn get_mut(&mut self) -> (r: &mut V)
+            requires obeys_key_model::<K>(), builds_valid_hashers::<S>(), old(self).map@.contains_key(old(self).key@),
+            ensures *r == old(self).map@[old(self).key@],
+                    final(self).map@ == old(self).map@.insert(old(self).key@, *final(r)),
+                    final(self).key == old(self).key,
+                    *final(final(self).map) == *final(old(self).map),
+        { unimplemented!() }
+    }
+    impl<'a, K: Eq + Hash, V, S: std::hash::BuildHasher> RawVacantEntryMut<'a, K, V, S> {
+        pub fn insert(self, k: K, v: V)
+            requires obeys_key_model::<K>(), builds_valid_hashers::<S>(),
+            ensures final(self.map)@ == old(self.map)@.insert(k, v)
+        { self.map.insert(k, v); }
+    }
+    pub trait RawEntryApi<K, V, S> {
+        spec fn as_std(&self) -> &std::collections::HashMap<K, V, S>;
+        fn raw_entry_mut(&mut self) -> (b: RawEntryBuilderMut<'_, K, V, S>)
+            ensures *b.map == *old(self).as_std(), *final(b.map) == *final(self).as_std();
+    }
+    impl<K: Eq + Hash, V, S: std::hash::BuildHasher> RawEntryApi<K, V, S> for std::collections::HashMap<K, V, S> {
+        open spec fn as_std(&self) -> &std::collections::HashMap<K, V, S> { self }
+        fn raw_entry_mut(&mut self) -> (b: RawEntryBuilderMut<'_, K, V, S>)
+        { RawEntryBuilderMut { map: self } }
+    }
+} }
+use hashbrown::hash_map::RawEntryApi;
 
 pub type Map<T> = HashMap<T, MyHashSet<T, BuildHasherDefault<FxHasher>>, BuildHasherDefault<FxHasher>>;
 pub type RevMap<T> = HashMap<T, Vec<T>, BuildHasherDefault<FxHasher>>;
@@ -136,12 +203,72 @@ pub type RevMap<T> = HashMap<T, Vec<T>, BuildHasherDefault<FxHasher>>;
                  assert(old(self).has(a, b) <==> old(self).rev_has(a, b));
              }
          }
+//@fn insert_by_ref | r
+       requires old(self).wf(), obeys_key_model::<T>(), Self::clone_is_identity(),
+       ensures final(self).wf(),
+               r == !old(self).has(*x, *y),
+               forall|a: T, b: T| #![trigger final(self).has(a, b)] #![trigger old(self).has(a, b)] final(self).has(a, b) <==> (old(self).has(a, b) || (a == *x && b == *y)),
+//@ghost after-text vac.insert(x.clone(), MyHashSet::from_iter([y.clone()])); true }, };
+      proof {
+          let m0 = old(self).map@;
+          let s0 = if m0.contains_key(*x) { m0[*x]@ } else { Set::<T>::empty() };
+          assert(self.reverse_map@ == old(self).reverse_map@);
+          assert(self.map@.contains_key(*x));
+          assert(self.map@[*x]@ =~= s0.insert(*y));
+          assert(added == !s0.contains(*y));
+          assert(forall|a: T| a != *x ==> (#[trigger] self.map@.contains_key(a) == m0.contains_key(a)) && (m0.contains_key(a) ==> self.map@[a] == m0[a]));
+          if !added {
+              assert(m0.contains_key(*x) && m0[*x]@.contains(*y));
+              assert(self.map@[*x]@ =~= m0[*x]@);
+              assert forall|a: T, b: T| self.has(a, b) <==> old(self).has(a, b) by { }
+              assert forall|a: T, b: T| self.has(a, b) <==> self.rev_has(a, b) by {
+                  assert(old(self).has(a, b) <==> old(self).rev_has(a, b));
+              }
+          }
+      }
+//@ghost after-text vac.insert(y.clone(), vec![x.clone()]); }, };
+         proof {
+             let m0 = old(self).map@;
+             let r0 = old(self).reverse_map@;
+             let s0 = if m0.contains_key(*x) { m0[*x]@ } else { Set::<T>::empty() };
+             let v0 = if r0.contains_key(*y) { r0[*y]@ } else { Seq::<T>::empty() };
+             assert(!s0.contains(*y));
+             assert(!old(self).has(*x, *y));
+             assert(!v0.contains(*x)) by { if v0.contains(*x) { assert(old(self).rev_has(*x, *y)); } }
+             assert(self.reverse_map@.contains_key(*y));
+             assert(self.reverse_map@[*y]@ =~= v0.push(*x));
+             assert(forall|b: T| b != *y ==> (#[trigger] self.reverse_map@.contains_key(b) == r0.contains_key(b)) && (r0.contains_key(b) ==> self.reverse_map@[b] == r0[b]));
+             assert forall|a: T| #[trigger] v0.push(*x).contains(a) <==> (v0.contains(a) || a == *x) by {
+                 if v0.push(*x).contains(a) {
+                     let i = choose|i: int| 0 <= i < v0.push(*x).len() && v0.push(*x)[i] == a;
+                     if i < v0.len() { assert(v0[i] == a); }
+                 }
+                 if v0.contains(a) {
+                     let i = choose|i: int| 0 <= i < v0.len() && v0[i] == a;
+                     assert(v0.push(*x)[i] == a);
+                 }
+                 if a == *x { assert(v0.push(*x)[v0.len() as int] == *x); }
+             }
+             assert(v0.push(*x).no_duplicates()) by {
+                 if r0.contains_key(*y) { assert(v0.no_duplicates()); }
+             }
+             assert forall|a: T, b: T| self.has(a, b) <==> self.rev_has(a, b) by {
+                 if a == *x && b == *y {
+                 } else if b == *y {
+                     assert(old(self).has(a, *y) <==> old(self).rev_has(a, *y));
+                 } else if a == *x {
+                     assert(old(self).has(*x, b) <==> old(self).rev_has(*x, b));
+                 } else {
+                     assert(old(self).has(a, b) <==> old(self).rev_has(a, b));
+                 }
+             }
+         }
 //@fn contains | r
        requires obeys_key_model::<T>(),
        ensures r == self.has(*x, *y),
 //@closure 1 | s: &MyHashSet<T, BuildHasherDefault<FxHasher>> | r: bool
        ensures r == s@.contains(*y)
-//@drop insert_by_ref iter_all count_estimate count_exact
+//@drop iter_all count_estimate count_exact
 //@end
 
 } // verus!
